@@ -139,6 +139,12 @@ def gen_cont(rng, stateful=False, rich=False):
             sc["pb"] = [[rng.choice(list(range(1, N + 1))) for _ in range(rng.randint(0, 3))] for _ in range(3)]
         if K == 2 and rng.random() < 0.3 and not sc.get("ccm"):
             sc["cct"] = [[None, seqd(1.0, 5.0)], [cdist(4.0), None]]
+        if N >= 2 and not sc.get("pb") and rng.random() < 0.35:
+            sc.pop("cycle", None)
+            # flexible process-based routing with join-shortest-queue / load-balancing choices
+            sc["fpb"] = {"routes": [[sorted(rng.sample(range(1, N + 1), rng.randint(1, N))) for _ in range(rng.randint(1, 3))]
+                                    for _ in range(2)],
+                         "rule": rng.choice(["any", "all"]), "choice": rng.choice(["jsq", "lb", "random"])}
     return sc
 
 
@@ -215,7 +221,14 @@ def build_cont(sc):
             servers.append(s)
     kw["number_of_servers"] = servers
     kw["queue_capacities"] = [float("inf") if q == "inf" else q for q in sc["qcap"]]
-    if sc.get("pb"):
+    if sc.get("fpb"):
+        froutes = [[list(x) for x in r] for r in sc["fpb"]["routes"]]
+
+        def froute_fn(ind, simulation):
+            return [list(x) for x in froutes[ind.id_number % len(froutes)]]
+        kw["routing"] = {names[k]: ciw.routing.FlexibleProcessBased(froute_fn, rule=sc["fpb"]["rule"], choice=sc["fpb"]["choice"])
+                         for k in range(K)}
+    elif sc.get("pb"):
         routes = [list(r) for r in sc["pb"]]
 
         def route_fn(ind, simulation):
